@@ -256,7 +256,7 @@ pub fn judge(doc: &Doc) -> Result<bool, (String, String)> {
 pub fn run(ctx: &Ctx) -> Report {
     let mut rep = Report::new();
     let mut r = ctx.rng("c05");
-    let n = ctx.count(20_000, 500_000);
+    let n = ctx.count(200_000, 2_000_000);
     rep.need("accepted_and_hash_checked", 2000);
     for k in 0..n {
         let doc = gen_doc(&mut r);
